@@ -533,6 +533,10 @@ func RunCase(c *hx.Ctx, idx int, keep bool) {
 			c.Op(p.opLine(), after)
 		}
 	}
+	// the reader API model (api.go): notes plumbing, one reader + a history of calls, front door
+	if o.panicked == "" {
+		apiOps(c, p, k, path, idx)
+	}
 	// distribution of what was generated
 	c.Count(p.Fmt + "/" + p.Variant)
 	if !p.Oracle {
@@ -681,8 +685,8 @@ func hrefOps(c *hx.Ctx, from, n int) {
 }
 
 func Run(c *hx.Ctx) {
-	c.Rep.Rule = "packages: XLSX / PPTX / EPUB 2+3 written by the harness's own writers from a logical package = declared list (1-6 parts, each with a unique text token; states ok/missing/malformed/dangling/wrong-kind), decoy parts (unreferenced; some listed in rels/manifest but not declared), XLSX sheetId values a random permutation (non-ascending, sparse) unrelated to position and to r:id, PPTX speaker-notes parts with their own unique token behind the slide's own relationship part (for readable, unreadable and decoy slides; conventional/renamed/absolute targets, numbered independently of the slides), part paths nested/renamed/absolute/with dot segments, file numbers a random permutation of the declared order, ZIP member order another random permutation, optional parts (rels, sharedStrings, docProps, mimetype, NCX, nav) randomly absent; hrefs percent-encoded in 4 styles incl. space, unicode, '+', '%', '#'; near-name members in a quarter of the packages (1-2 members whose name differs from a declared part's only in the letter case of one path segment, in NFC/NFD form, or that is the EPUB href without percent-decoding; as a second declared part, an unreferenced left-over or a listed left-over, on either side in ZIP order, also beside a missing declared member). call sequences: on one opened reader of every package that opens, 2-6 generated calls (xlsx ExtractOptions.Sheets / pptx ExtractOptions.SlideNumbers selections through TextWithOptions, MarkdownWithOptions, MarkdownWithRAGOptions: a single part that is not the first, suffix, ascending non-prefix subset, reversed list, permutation, subset in any order, prefix, and lenient selections with out-of-range or repeated indices; epub TextWithOptions/MarkdownWithOptions with the 4 navigation modes; Text, Markdown, Document, part accessors, Tables/SheetByName/Metadata interleaved, repeated), the statement evaluated on every accessor after every call and against a fresh reader, and the model compared once more with the used reader. href ops: structured (reference built from the member it denotes) and junk strings. non-trivial = the package opened with at least one part; distinct by op line"
-	n := c.N(600, 9000)
+	c.Rep.Rule = "packages: XLSX / PPTX / EPUB 2+3 written by the harness's own writers from a logical package = declared list (1-6 parts, each with a unique text token; states ok/missing/malformed/dangling/wrong-kind), decoy parts (unreferenced; some listed in rels/manifest but not declared), XLSX sheetId values a random permutation (non-ascending, sparse) unrelated to position and to r:id, PPTX speaker-notes parts with their own unique token behind the slide's own relationship part (for readable, unreadable and decoy slides; conventional/renamed/absolute targets, numbered independently of the slides), part paths nested/renamed/absolute/with dot segments, file numbers a random permutation of the declared order, ZIP member order another random permutation, optional parts (rels, sharedStrings, docProps, mimetype, NCX, nav) randomly absent; hrefs percent-encoded in 4 styles incl. space, unicode, '+', '%', '#'; near-name members in a quarter of the packages (1-2 members whose name differs from a declared part's only in the letter case of one path segment, in NFC/NFD form, or that is the EPUB href without percent-decoding; as a second declared part, an unreferenced left-over or a listed left-over, on either side in ZIP order, also beside a missing declared member). call sequences: on one opened reader of every package that opens, 2-6 generated calls (xlsx ExtractOptions.Sheets / pptx ExtractOptions.SlideNumbers selections through TextWithOptions, MarkdownWithOptions, MarkdownWithRAGOptions: a single part that is not the first, suffix, ascending non-prefix subset, reversed list, permutation, subset in any order, prefix, and lenient selections with out-of-range or repeated indices; epub TextWithOptions/MarkdownWithOptions with the 4 navigation modes; Text, Markdown, Document, part accessors, Tables/SheetByName/Metadata interleaved, repeated), the statement evaluated on every accessor after every call and against a fresh reader, and the model compared once more with the used reader. reader API model (api.go): per PPTX package op c18.pptxn (which notes part each presented slide carries; slide relationship parts are in the parse table with their Types, notes parts as a kind of their own; one package in five has an irregular notes plumbing: notes part or slide relationship part not well-formed, notesSlide relationship naming a slide, root-relative target without '/', two notesSlide relationships, ISO-strict relationship type, targets with dot segments / doubled or trailing slashes / percent signs, with a notes part put where they lead or under the literal name; fallback decks carry candidate names that are not plain slideN.xml, some with notes), and per package op c18.api: ONE opened reader, a history of 3-7 calls (count, names, Sheet/Slide(i) with i from -1 to n, SheetByName, TextWithOptions / MarkdownWithOptions / MarkdownWithRAGOptions with the selection classes above or none and random flags and delimiters, Document, Chapters, epub navigation modes -1..9) interleaved with up to two front-door calls tabula.Open(f).PageCount() / .Pages(..).ExcludeHeaders().ExcludeFooters().Text() / .Document(); replies compared byte for byte (texts) or as sequences of part ids found through the unique tokens (markdown, pages); what each part's bytes parse to is passed to the model keyed by content id (sheet grids and slide bodies from the reader, notes text, chapter text/markdown/page count from htmldoc run on the member bytes the harness wrote); slides carry bulleted, numbered and indented paragraphs and footer / slide-number / date / header placeholders chosen by a hash of the token; one package in sixteen carries members the front door's content sniffing looks at (a mimetype member naming this, another or no known format, META-INF/container.xml or another OOXML main part beside the package's own: refused by tabula.Open where the content names another format, no oracle verdict there, the model's admission step must agree); one EPUB in twelve has a blank page (empty body, no token) in the spine (correspondence only). href ops: structured (reference built from the member it denotes) and junk strings. non-trivial = the package opened with at least one part; distinct by op line"
+	n := c.N(660, 9900)          // (600, 9000) before the correspondence-only variants of api.go took a share of the packages
 	only := os.Getenv("C18_FMT") // debugging aid: restrict the stream to one format
 	for i := 0; i < n; i++ {
 		if only != "" && only != []string{"xlsx", "pptx", "epub"}[i%3] {
